@@ -50,8 +50,16 @@ def _measure_job(args):
             continue
         mn, mx = m
         cases.append(("layout_measure", [FLAGS, L.env_enc(cwidth), w, tree], f"m:{mn},{mx}", "below" if w < sm else "w-smin<=12" if w <= sm + 12 else "wide",
-                      f"Measurement.get(Console(width={cwidth}), {spec!r}, {w})"))
+                      f"Measurement.get(Console({cwidth}), {spec!r}, {w})"))
         ok = 0 <= mn <= mx <= max(w, 0)
+        if spec[0] == "GRP" and spec[1] and w >= 1:
+            # a fitted group reports the largest minimum and the largest maximum among its members (measured independently here)
+            ms = [L.real_measure(console, c, w) for c in spec[2]]
+            if all(not isinstance(x, str) for x in ms):
+                exp = (max([x[0] for x in ms], default=0), max([x[1] for x in ms], default=0))
+                okg = (mn, mx) == exp
+                checks.append((okg, "RenderGroup.__rich_measure__", (spec, cwidth, w) if not okg else None,
+                               f"group measured ({mn}, {mx}) but its members measure {ms}: expected {exp}", None))
         checks.append((ok, "Measurement.get", (spec, cwidth, w) if not ok else None, f"measurement ({mn}, {mx}) is not 0 <= minimum <= maximum <= {w}", None))
         for which, val in (("maximum", mx), ("minimum", mn)):
             if val < 1 or (val, which) in seen_render:
@@ -168,6 +176,8 @@ def run(ctx):
         if rng.random() < 0.15:
             spec = (rng.choice(["CAST", "OPQ"]), spec) if spec[0] != "CAST" else ("OPQ", spec)
         cwidth = rng.choice([80, 80, 40, 12, 200])
+        if rng.random() < 0.25:
+            cwidth = (cwidth, rng.random() < 0.5, rng.random() < 0.5, rng.choice([None, "standard", "truecolor"]))
         if d <= 2 or not quick:
             ws = list(range(0, 61)) if (not quick or rng.random() < 0.3) else sorted(set(rng.sample(range(0, 61), 14) + [0, 1, 2]))
         else:
